@@ -57,6 +57,22 @@ Theorem C23_equality_sound_payload : forall st base new roots,
   validates_payload base a md p = validates_payload new b md p.
 Proof. exact fixed_equality_sound_payload. Qed.
 
+(* ... and for the streaming validator model itself (typed traverser + validator), limits >= 1 *)
+Theorem C23_extension_sound_streaming : forall st base new roots,
+  compare_fixed st base new roots = CmpOk [] ->
+  forall a b, In (a, b) roots -> forall md p, 1 <= md ->
+  RV.Model.C22_Typed.validate_payload base a md p = RV.Model.C22_Typed.POk ->
+  RV.Model.C22_Typed.validate_payload new b md p = RV.Model.C22_Typed.POk.
+Proof. exact fixed_extension_sound_streaming. Qed.
+Theorem C23_equality_sound_streaming : forall st base new roots,
+  allow_new_enum_variants st = false -> allow_replacing_with_any st = false ->
+  allow_validation_weakening st = false ->
+  compare_fixed st base new roots = CmpOk [] ->
+  forall a b, In (a, b) roots -> forall md p, 1 <= md ->
+  (RV.Model.C22_Typed.validate_payload base a md p = RV.Model.C22_Typed.POk <->
+   RV.Model.C22_Typed.validate_payload new b md p = RV.Model.C22_Typed.POk).
+Proof. exact fixed_equality_sound_streaming. Qed.
+
 (* type-collection comparison (compare_type_collection_schemas, named roots) *)
 Theorem C23_named_extension_sound : forall st base new broots croots,
   compare_named st base new broots croots = CmpOk [] ->
@@ -112,6 +128,8 @@ Print Assumptions C23_equality_sound.
 Print Assumptions C23_require_equality_sound.
 Print Assumptions C23_extension_sound_payload.
 Print Assumptions C23_equality_sound_payload.
+Print Assumptions C23_extension_sound_streaming.
+Print Assumptions C23_equality_sound_streaming.
 Print Assumptions C23_named_extension_sound.
 Print Assumptions C23_named_equality_sound.
 Print Assumptions C23_simulation_sound.
